@@ -125,4 +125,27 @@
 	    IOV_ENT_PRE(a, 3) && IOV_ENT_PRE(a, 4) && IOV_ENT_PRE(a, 5) &&  \
 	    IOV_ENT_PRE(a, 6) && IOV_ENT_PRE(a, 7))
 
+/* ---- entry snapshots for the native replay driver (modules/aioiov/replay.c; locals woven
+ * at function entry, read by vp/replay.py from counterexample traces).  nni_aio_iov_advance
+ * already has `vp_in` / `vp_n0` (used by its loop invariants); the same names are used for
+ * the other helpers.  Plain copies, nothing is written. */
+/* CBMC's per-dereference checks are switched off inside the snapshot statements, so that they
+ * add no proof obligations (every read is guarded by the same conditions the code itself uses) */
+#define VP_SNAP_BEGIN                                                                          \
+	_Pragma("CPROVER check push") _Pragma("CPROVER check disable \"pointer\"")               \
+	_Pragma("CPROVER check disable \"bounds\"") _Pragma("CPROVER check disable \"pointer-primitive\"") \
+	_Pragma("CPROVER check disable \"pointer-overflow\"")
+#define VP_SNAP_END _Pragma("CPROVER check pop")
+#define VP_SNAP_AIO() VP_SNAP_BEGIN nni_aio vp_in = *aio; VP_SNAP_END
+#define VP_SNAP_IOV_E(i)                                                                      \
+	size_t vp_arg_len##i = (nio <= VIOV_MAX && (i) < nio) ? iov[i].iov_len : (size_t) 0;      \
+	size_t vp_arg_buf##i = (nio <= VIOV_MAX && (i) < nio) ? (size_t) (iov[i].iov_buf != NULL) : (size_t) 0
+#define VP_SNAP_SETIOV()                                                                      \
+	VP_SNAP_BEGIN                                                                             \
+	nni_aio  vp_in = *aio;                                                                    \
+	unsigned vp_arg_nio = nio, vp_arg_alias = (iov == &aio->a_iov[0]);                        \
+	VP_SNAP_IOV_E(0); VP_SNAP_IOV_E(1); VP_SNAP_IOV_E(2); VP_SNAP_IOV_E(3);                   \
+	VP_SNAP_IOV_E(4); VP_SNAP_IOV_E(5); VP_SNAP_IOV_E(6); VP_SNAP_IOV_E(7);                   \
+	VP_SNAP_END
+
 #endif
